@@ -7,7 +7,7 @@
      WiringRank  (the index map of the parent; the two parent loops). *)
 From Coq Require Import ZArith List Bool Arith Lia Ring_theory Ring Permutation.
 From LW Require Import Base.Sx Base.Num Base.Sums Base.Mat Base.Embed Model.Circuit Model.Display
-     Proofs.CompileP Proofs.CircuitP Proofs.RewriteP Proofs.DisplayP
+     Proofs.CompileP Proofs.CircuitP Proofs.AddP Proofs.RewriteP Proofs.DisplayP
      Proofs.WiringDefs Proofs.WiringMat Proofs.WiringSwaps Proofs.WiringPass Proofs.WiringRank.
 Import ListNotations.
 
@@ -64,6 +64,113 @@ Lemma visible_from_in n internal m x :
   In x (visible_from n internal m) <-> m <= x /\ x < n /\ ~ In x internal.
 Proof.
   unfold visible_from. rewrite filter_In, in_seq, not_in_spec. intuition lia.
+Qed.
+
+(* ---------- the order-preserving part of the wiring (pure index arithmetic) ---------- *)
+Lemma sigma_enum n (outs ins : list nat) (sw : dict) :
+  NoDup outs -> length outs = length ins ->
+  (forall x, In x outs -> x < n) -> (forall x, In x ins -> x < n) ->
+  wf_swaps n sw ->
+  (forall k, k < length outs -> swap_fun sw (nth k outs 0) = nth k ins 0) ->
+  (forall i, i < n -> ~ In i outs -> swap_fun sw i < n /\ ~ In (swap_fun sw i) ins) ->
+  (forall i j, i < j -> j < n -> ~ In i outs -> ~ In j outs -> swap_fun sw i < swap_fun sw j) ->
+  (forall i, n <= i -> swap_fun sw i = i) ->
+  forall j, j < n - length outs ->
+    swap_fun sw (nth j (open_modes_of n outs) 0) = nth j (open_modes_of n ins) 0.
+Proof.
+  intros Hno Hlen Hob Hib Hw H2 H3 H4 H5 j Hj.
+  apply (incr_enum (open_modes_of n outs) (open_modes_of n ins) (swap_fun sw)).
+  - apply sasc_filter_seq.
+  - apply sasc_filter_seq.
+  - intros a Ha. apply open_modes_in in Ha as [Ha1 Ha2]. apply open_modes_in. apply H3; assumption.
+  - intros a a' Ha Ha' Hlt. apply open_modes_in in Ha as [Ha1 Ha2]. apply open_modes_in in Ha' as [Hb1 Hb2].
+    apply H4; assumption.
+  - intros b a Hb Ha Hlt. apply open_modes_in in Hb as [Hb1 Hb2].
+    destruct (perm_on_surj n (swap_fun sw) b (wf_swaps_perm_on n sw Hw)) as (a' & Ea).
+    exists a'. split; [|exact Ea]. apply open_modes_in.
+    assert (Ha' : a' < n).
+    { destruct (lt_dec a' n) as [Hl|Hl]; [exact Hl|]. rewrite H5 in Ea by lia. lia. }
+    split; [exact Ha'|]. intros Hin. apply (In_nth _ _ 0) in Hin as (k & Hk & Ek).
+    apply Hb2. rewrite <- Ea, <- Ek, H2 by exact Hk. apply nth_In. lia.
+  - rewrite open_modes_length by assumption. exact Hj.
+Qed.
+
+Lemma wiring_enum (m nP nS : nat) (I ins ts : list nat) :
+  let H2 := map (mins ts) ins in
+  let n2 := nS + length ts in
+  let h := length ins in
+  NoDup ins -> (forall k, In k ins -> k < nS) ->
+  (forall j, j < length ts -> nth j ts 0 < nS + j) ->
+  m + n2 <= nP + h ->
+  (forall p, p < n2 -> (forall y, mins ts y <> p) ->
+     exists i, In i I /\ m <= i /\ ~ In p H2 /\ freec H2 p = i - m) ->
+  (forall i, In i I -> m <= i ->
+     (exists p, p < n2 /\ ~ In p H2 /\ freec H2 p = i - m /\ forall y, mins ts y <> p) \/ n2 - h <= i - m) ->
+  let old := oldf m H2 in
+  let phi := fun y => mins ts y + m in
+  let vis := visible_from nP I m in
+  nS - h <= length vis /\
+  forall j, j < nS - h -> phi (nth j (open_modes_of nS ins) 0) = old (nth j vis 0).
+Proof.
+  intros H2 n2 h Hni Hib Hts Hkey HA HB old phi vis.
+  assert (Hts' : forall j, j < length ts -> nth j ts 0 <= nS + j) by (intros j Hj; specialize (Hts j Hj); lia).
+  assert (Ftop : forall l, mins ts (nS + l) = n2 + l) by (apply mins_top; exact Hts').
+  assert (Flt : forall y, y < nS <-> mins ts y < n2).
+  { intros y. pose proof (Ftop 0) as F0. rewrite !Nat.add_0_r in F0. split; intros Hy.
+    - rewrite <- F0. apply mins_mono, Hy.
+    - destruct (lt_dec y nS) as [Hl|Hl]; [exact Hl|exfalso].
+      specialize (Ftop (y - nS)). replace (nS + (y - nS)) with y in Ftop by lia. lia. }
+  assert (HndH : NoDup H2) by (apply nodup_map_inj; [intros a b; apply WiringRank.mins_inj|exact Hni]).
+  assert (HbH : forall k, In k H2 -> k < n2).
+  { intros k Hk. apply in_map_iff in Hk as (a & <- & Ha). apply Flt, Hib, Ha. }
+  assert (HlH : length H2 = h) by (unfold H2; apply map_length).
+  assert (Hfn2 : freec H2 n2 = n2 - h).
+  { rewrite <- HlH. apply freec_total; [exact HndH|]. apply Forall_forall. exact HbH. }
+  destruct (oldf_spec m H2 HndH) as (Omono & Olow & Orank & Osurj & Ole & Otop). fold old in Omono, Olow, Orank, Osurj, Ole, Otop.
+  assert (OnP : old nP = nP + h) by (rewrite <- HlH; apply (Otop n2 nP HbH); lia).
+  assert (Omono' : forall a b, a <= b -> old a <= old b).
+  { intros a b Hab. destruct (Nat.eq_dec a b) as [->|Hne]; [lia|]. specialize (Omono a b ltac:(lia)). lia. }
+  assert (Hphi_inj : forall a b, phi a = phi b -> a = b).
+  { intros a b E. unfold phi in E. apply (WiringRank.mins_inj ts). lia. }
+  set (A := open_modes_of nS ins). set (B := map old vis).
+  assert (HP2 : forall a, In a A -> In (phi a) B).
+  { intros a Ha. apply open_modes_in in Ha as [Ha1 Ha2]. apply in_map_iff.
+    assert (Hx : mins ts a < n2) by (apply Flt, Ha1).
+    assert (HxH : ~ In (mins ts a) H2).
+    { intros Hin. apply in_map_iff in Hin as (a' & E & Ha'). apply WiringRank.mins_inj in E. subst a'. contradiction. }
+    destruct (Osurj (m + mins ts a)) as (v & Hv & Ev); [lia|replace (m + mins ts a - m) with (mins ts a) by lia; exact HxH|].
+    exists v. split; [rewrite Ev; unfold phi; lia|]. apply visible_from_in. split; [exact Hv|]. split.
+    - destruct (lt_dec v nP) as [Hl|Hl]; [exact Hl|exfalso]. pose proof (Omono' nP v ltac:(lia)). lia.
+    - intros HvI. destruct (Orank v Hv) as (Hge & Hnot & Hfr). rewrite Ev in Hnot, Hfr.
+      replace (m + mins ts a - m) with (mins ts a) in Hnot, Hfr by lia.
+      destruct (HB v HvI Hv) as [(p & Hp & HpH & Hpf & Hpno)|Hbig].
+      + assert (p = mins ts a) by (apply (freec_inj H2); [assumption|assumption|lia]). apply (Hpno a). congruence.
+      + pose proof (freec_lt H2 _ _ Hx Hnot) as Hl. lia. }
+  assert (HP3 : forall b a, In b B -> In a A -> b < phi a -> exists a', In a' A /\ phi a' = b).
+  { intros b a Hb Ha Hlt. apply in_map_iff in Hb as (v & <- & Hv). apply visible_from_in in Hv as (Hv1 & Hv2 & Hv3).
+    apply open_modes_in in Ha as [Ha1 Ha2].
+    destruct (Orank v Hv1) as (Hge & Hnot & Hfr).
+    assert (Hxa : old v - m < mins ts a) by (unfold phi in Hlt; lia).
+    assert (Hxn : old v - m < n2) by (apply Flt in Ha1; lia).
+    destruct (mins_image_dec ts (old v - m)) as [(y & Ey)|Hno].
+    - exists y. split; [|unfold phi; lia]. apply open_modes_in. split.
+      + apply Flt. lia.
+      + intros Hin. apply Hnot. rewrite <- Ey. apply in_map. exact Hin.
+    - exfalso. destruct (HA _ Hxn Hno) as (i & Hi & Hmi & _ & Hfi).
+      assert (i = v) by lia. subst i. contradiction. }
+  assert (HlA : length A = nS - h) by (apply open_modes_length; assumption).
+  assert (HlB : length B = length vis) by (apply map_length).
+  assert (Hle : length A <= length B).
+  { rewrite <- (map_length phi A). apply NoDup_incl_length.
+    - apply nodup_map_inj; [exact Hphi_inj|]. apply sasc_nodup, sasc_filter_seq.
+    - intros y Hy. apply in_map_iff in Hy as (a & <- & Ha). apply HP2, Ha. }
+  split; [lia|]. intros j Hj.
+  rewrite (incr_enum A B phi); try assumption.
+  - unfold B. rewrite (nth_indep _ 0 (old 0)) by (rewrite map_length; lia). apply map_nth.
+  - apply sasc_filter_seq.
+  - apply sasc_map; [exact Omono|apply sasc_filter_seq].
+  - intros a a' _ _ Hlt. unfold phi. pose proof (mins_mono ts a a' Hlt). lia.
+  - lia.
 Qed.
 
 Section WiringP.
@@ -193,5 +300,380 @@ Section WiringP.
     rewrite tab_spec by (try apply Hp; assumption).
     unfold swaps_mat. rewrite (perm_mul_l nl (swap_fun sw) q US Hb) by (try apply Hp; assumption).
     rewrite Hqp by assumption. reflexivity.
+  Qed.
+
+  (* ---------- the sub-circuit with its output permutation ---------- *)
+  Lemma sub_side e (w : circ) nSl US :
+    WFH w -> length (c_in w) = length (c_out w) -> Forall swnd (c_spec w) ->
+    cadd_list e (c_spec w) (Ok (c_n w, mid co)) = Ok (nSl, US) ->
+    let outs := dkeys (c_out w) in let ins := dkeys (c_in w) in
+    let swaps := complete_swaps (c_n w) 0 (dict_of (combine outs ins)) 0 [] in
+    let sp0 := if list_eqb (dkeys swaps) (dvals swaps) then c_spec w else c_spec w ++ [Swaps swaps] in
+    exists U0, cadd_list e sp0 (Ok (c_n w, mid co)) = Ok (nSl, U0) /\ Forall swnd sp0 /\
+               forall i j, i < nSl -> j < nSl -> U0 (swap_fun swaps i) j = US i j.
+  Proof.
+    intros ([Hs Hi Ho Hxi Hxo Hint Hnd] & Hni & Hno) Hlen Hsw H outs ins swaps sp0.
+    assert (Hlen' : length outs = length ins) by (unfold outs, ins, dkeys; rewrite !map_length; lia).
+    destruct (complete_swaps_spec (c_n w) outs ins Hno Hni Hlen') as (Hw & _).
+    { intros x Hx. exact (lt_all_in _ _ _ Ho Hx). }
+    { intros x Hx. exact (lt_all_in _ _ _ Hi Hx). }
+    fold swaps in Hw. pose proof (cadd_list_dim e _ _ _ _ _ H) as Hd.
+    subst sp0. destruct (list_eqb (dkeys swaps) (dvals swaps)) eqn:E.
+    - exists US. split; [exact H|]. split; [exact Hsw|]. intros i j _ _.
+      rewrite (swaps_keys_eq_vals_id swaps); [reflexivity|apply Hw|apply list_eqb_true, E].
+    - destruct (swaps_step e (c_spec w) (c_n w) nSl US swaps Hw ltac:(lia) H) as (U0 & E0 & HU0).
+      exists U0. split; [exact E0|]. split; [|exact HU0].
+      apply Forall_app. split; [exact Hsw|]. constructor; [|constructor]. simpl. apply Hw.
+  Qed.
+
+  Lemma old_avoid m H i k : NoDup H -> In k H -> oldf m H i <> k + m.
+  Proof.
+    intros Hn Hk E. destruct (oldf_spec m H Hn) as (_ & Olow & Orank & _).
+    destruct (lt_dec i m) as [Hl|Hl]; [rewrite Olow in E by exact Hl; lia|].
+    destruct (Orank i ltac:(lia)) as (_ & Hnot & _). apply Hnot. rewrite E.
+    replace (k + m - m) with k by lia. exact Hk.
+  Qed.
+
+  (* ---------- Layer 4: the wiring theorem ---------- *)
+  Theorem add_wiring e (c sub c' : circ) mode g lP UP lS US :
+    WFH c -> WFH sub -> 1 <= c_n sub ->
+    Forall swnd (c_spec c) -> Forall swnd (c_spec sub) ->
+    length (c_in sub) = length (c_out sub) ->
+    op_add o c sub mode g = Ok c' ->
+    build o e c = Ok (c_n c + lP, UP) -> build o e sub = Ok (c_n sub + lS, US) ->
+    let nP := c_n c in let nS := c_n sub in let h := length (c_in sub) in let nR := nP + h in
+    let ins := dkeys (c_in sub) in let outs := dkeys (c_out sub) in
+    exists (m : nat) (old loc phi_in phi_out : nat -> nat) (UR E iP : mat),
+      mode_ok c (map_mode (c_int c) mode) = Ok m /\ m < nP /\ ~ In m (c_int c) /\
+      c_n c' = nR /\ build o e c' = Ok (nR + lP + lS, UR) /\
+      (forall a b, a < b -> old a < old b) /\ (forall i, i < nP -> old i < nR) /\
+      (forall l, old (nP + l) = nR + l) /\ (forall i, i < m -> old i = i) /\
+      (forall k, k < h -> loc k < nR /\ forall i, old i <> loc k) /\
+      (forall k k', k < h -> k' < h -> loc k = loc k' -> k = k') /\
+      Permutation (c_int c') (map old (c_int c) ++ map loc (seq 0 h)) /\
+      c_in c' = map (fun kv => (old (fst kv), snd kv)) (c_in c) ++ map (fun kv => (phi_in (fst kv), snd kv)) (c_in sub) /\
+      c_out c' = map (fun kv => (old (fst kv), snd kv)) (c_out c) ++ map (fun kv => (phi_in (fst kv), snd kv)) (c_in sub) /\
+      (forall k, k < h -> phi_in (nth k ins 0) = loc k /\ phi_out (nth k outs 0) = loc k) /\
+      nS - h <= length (visible_from nP (c_int c) m) /\
+      (forall j, j < nS - h ->
+         phi_in (nth j (open_modes_of nS ins) 0) = old (nth j (visible_from nP (c_int c) m) 0) /\
+         phi_out (nth j (open_modes_of nS outs) 0) = old (nth j (visible_from nP (c_int c) m) 0)) /\
+      (forall l, phi_in (nS + l) = nR + lP + l /\ phi_out (nS + l) = nR + lP + l) /\
+      (forall i, i < nS + lS -> phi_in i < nR + lP + lS /\ phi_out i < nR + lP + lS) /\
+      (forall i j, i < nS + lS -> j < nS + lS -> (phi_in i = phi_in j -> i = j) /\ (phi_out i = phi_out j -> i = j)) /\
+      (forall i j, i < nS + lS -> j < nS + lS -> E (phi_out i) (phi_in j) = US i j) /\
+      (forall x y, x < nR + lP + lS -> y < nR + lP + lS -> (forall i, i < nS + lS -> phi_in i <> x) ->
+                   E x y = mid co x y /\ E y x = mid co y x) /\
+      (forall x, (forall i, i < nS + lS -> phi_in i <> x) <-> (forall i, i < nS + lS -> phi_out i <> x)) /\
+      (forall i, In i (c_int c) -> forall i', i' < nS + lS -> phi_in i' <> old i) /\
+      (forall i j, i < nP + lP -> j < nP + lP -> iP (old i) (old j) = UP i j) /\
+      (forall x y, x < nR + lP + lS -> y < nR + lP + lS -> (forall i, i < nP + lP -> old i <> x) ->
+                   iP x y = mid co x y /\ iP y x = mid co y x) /\
+      meq (nR + lP + lS) UR (mmul co (nR + lP + lS) E iP) /\
+      WFH c' /\ Forall swnd (c_spec c').
+  Proof.
+    intros Hc Hsub Hn1 Hsc Hss Hlen Hadd HbP HbS. cbv zeta.
+    pose proof (WFH_op_add o c sub mode g c' Hc Hsub Hn1 Hadd) as [HWc' _].
+    unfold build in HbP, HbS.
+    destruct (cadd_list e (c_spec c) (Ok (c_n c, mid co))) as [[nP1 UP1]|] eqn:EP; [|discriminate].
+    injection HbP as -> ->.
+    destruct (cadd_list e (c_spec sub) (Ok (c_n sub, mid co))) as [[nS1 US1]|] eqn:ES; [|discriminate].
+    injection HbS as -> ->.
+    rewrite op_add_eq in Hadd. unfold op_add' in Hadd.
+    destruct (mode_ok c (map_mode (c_int c) mode)) as [m|] eqn:Em; cbn [bind] in Hadd; [|discriminate].
+    pose proof (mode_ok_lt' c _ _ Em) as Hm. cbv zeta in Hadd.
+    set (g' := g || negb (length (c_in (unpack_groups (copy_circ sub))) =? 0)) in *.
+    set (w := if g' then unpack_groups (copy_circ sub) else copy_circ sub) in *.
+    assert (Hw : WFH w /\ c_n w = c_n sub /\ c_in w = c_in sub /\ c_out w = c_out sub /\ Forall swnd (c_spec w) /\
+                 cadd_list e (c_spec w) (Ok (c_n sub, mid co)) = Ok (c_n sub + lS, US)).
+    { subst w. destruct g'.
+      - destruct Hsub as (Hs & Hni & Hno). split; [split; [apply WF_unpack, Hs|split; assumption]|].
+        simpl. repeat split; try reflexivity; [apply swnd_unpack, Hss|]. rewrite unpack_cadd_list. exact ES.
+      - unfold copy_circ. split; [exact Hsub|]. repeat split; auto. }
+    destruct Hw as (Hw & Hnw & Hiw & How & Hsw & ESw).
+    change (fun i : nat => m <=? i) with (Nat.leb m) in Hadd.
+    set (cnt := length (filter (Nat.leb m) (c_int c))) in *.
+    set (h0 := length (c_in w)) in *.
+    destruct (Nat.ltb_spec (c_n c - m - cnt) (c_n w - h0)) as [Hlt|Hsize]; [discriminate|].
+    set (swaps := complete_swaps (c_n w) 0 (dict_of (combine (dkeys (c_out w)) (dkeys (c_in w)))) 0 []) in *.
+    set (sp0 := if list_eqb (dkeys swaps) (dvals swaps) then c_spec w else c_spec w ++ [Swaps swaps]) in *.
+    set (w1 := mkCirc (c_n w) (c_spec w) (c_in w) (c_in w) (c_xin w) (c_xin w) (c_int w)) in *.
+    pose proof Hw as ([Hws Hwi Hwo Hwxi Hwxo Hwint Hwnd] & Hwni & Hwno).
+    pose proof Hc as ([Hcs Hci Hco Hcxi Hcxo Hcint Hcnd] & Hcni & Hcno).
+    assert (Hh0 : h0 = length (c_in sub)) by (unfold h0; rewrite Hiw; reflexivity).
+    assert (Hlins : length (dkeys (c_in w)) = h0) by (unfold dkeys; apply map_length).
+    assert (Hlen' : length (dkeys (c_out w)) = length (dkeys (c_in w))).
+    { unfold dkeys. rewrite !map_length, Hiw, How. lia. }
+    (* the sub-circuit and its output permutation *)
+    pose proof (sub_side e w (c_n sub + lS) US Hw) as HS. cbv zeta in HS. fold swaps in HS. fold sp0 in HS.
+    destruct HS as (U0 & E0 & Hs0 & HU0); [rewrite Hiw, How; exact Hlen|exact Hsw|rewrite Hnw; exact ESw|].
+    pose proof (complete_swaps_spec (c_n w) (dkeys (c_out w)) (dkeys (c_in w)) Hwno Hwni Hlen'
+                  (fun x Hx => lt_all_in _ _ _ Hwo Hx) (fun x Hx => lt_all_in _ _ _ Hwi Hx)) as HCS.
+    cbv zeta in HCS. fold swaps in HCS. destruct HCS as (Hsw1 & Hsw2 & Hsw3 & Hsw4 & Hsw5).
+    (* pass-through modes *)
+    assert (HPI : PI h0 (w1, sp0)).
+    { unfold PI. simpl. repeat split; try assumption. subst sp0.
+      destruct (list_eqb (dkeys swaps) (dvals swaps)); [exact Hws|].
+      apply Forall_app. split; [exact Hws|]. constructor; [|constructor]. apply swaps_cwf, Hw. }
+    destruct (pass_fold_inv o h0 m (sort_nat (c_int c)) (w1, sp0) HPI) as [HPI2 Hcount].
+    destruct (fold_left (pass_step o m) (sort_nat (c_int c)) (w1, sp0)) as [w2 sp] eqn:Ef.
+    destruct HPI2 as (Hsp & Hk2 & Hn2 & Hl2). simpl in Hsp, Hk2, Hn2, Hl2, Hcount.
+    rewrite (filter_perm_length (Nat.leb m) _ _ (sort_nat_perm (c_int c))) in Hcount. fold cnt in Hcount.
+    pose proof (count_ge_bound (c_n c) m (c_int c) Hcnd Hcint) as Hcb. fold cnt in Hcb.
+    pose proof (keys_length_le (c_n w) (c_in w) Hwni Hwi) as Hh0le. fold h0 in Hh0le.
+    assert (Hkey : m + c_n w2 <= c_n c + h0) by lia.
+    destruct (pass_fold_spec o m (c_int c) w1 sp0 w2 sp Hcnd) as (ts & Hts1 & Hts2 & Hts3 & Hts4 & HtsAB);
+      [exact Hwni|intros k Hk; exact (lt_all_in _ _ _ Hwi Hk)|exact Ef|].
+    cbv zeta in HtsAB. destruct HtsAB as [HtsA HtsB].
+    change (c_n w1) with (c_n w) in *. change (c_in w1) with (c_in w) in *.
+    assert (HH2 : dkeys (c_in w2) = map (mins ts) (dkeys (c_in w))) by (rewrite Hts3; apply dkeys_map_key).
+    assert (Hts4' : forall j, j < length ts -> nth j ts 0 <= c_n w + j) by (intros j Hj; specialize (Hts4 j Hj); lia).
+    (* the parent loops *)
+    pose proof (parent_fold_spec o m c (dkeys (c_in w2)) Hn2 Hcni Hcno) as HPF. cbv zeta in HPF.
+    set (c1 := fold_left (parent_step o m) (sort_nat (dkeys (c_in w2))) c) in *.
+    destruct HPF as (Hp1 & Hp2 & Hp3 & Hp4 & Hp5).
+    assert (HlH2 : length (dkeys (c_in w2)) = h0) by (unfold dkeys; rewrite map_length; exact Hl2).
+    pose proof (herald_fold_spec m (c_in w2) c1 Hn2) as HHF. cbv zeta in HHF.
+    set (c2 := fold_left (herald_step m) (c_in w2) c1) in *.
+    destruct HHF as (Hh1 & Hh2 & Hh3 & Hh4 & Hh5).
+    { intros k Hk. rewrite Hp4, Hp5, !dkeys_map_key.
+      split; intros Hin; apply in_map_iff in Hin as (i & Ei & _); exact (old_avoid m _ i k Hn2 Hk Ei). }
+    assert (Hres : c_n c' = c_n c2 /\ c_int c' = c_int c2 /\ c_in c' = c_in c2 /\ c_out c' = c_out c2 /\
+                   (forall st, cadd_list e (c_spec c') st = cadd_list e (shift_spec m sp) (cadd_list e (c_spec c2) st)) /\
+                   (Forall swnd (c_spec c2) -> Forall swnd (shift_spec m sp) -> Forall swnd (c_spec c'))).
+    { destruct g'; injection Hadd as <-; simpl; repeat split.
+      - intros st. rewrite cadd_list_app, cadd_list_cons, cadd_group. reflexivity.
+      - intros G1 G2. apply Forall_app. split; [exact G1|]. constructor; [|constructor]. apply swnd_group. exact G2.
+      - intros st. rewrite cadd_list_app. reflexivity.
+      - intros G1 G2. apply Forall_app. split; assumption. }
+    destruct Hres as (Hr1 & Hr2 & Hr3 & Hr4 & Hr5 & Hr6).
+    (* compiling the three pieces *)
+    set (hs := map (fun hm => m + hm) (sort_nat (dkeys (c_in w2)))) in *.
+    assert (Hlh : length hs = h0) by (unfold hs; rewrite map_length, sort_length; exact HlH2).
+    assert (Hhs : forall j, j < length hs -> nth j hs 0 <= c_n c + j).
+    { intros j Hj. rewrite Hlh in Hj. unfold hs.
+      rewrite (nth_indep _ 0 (m + 0)) by (rewrite map_length, sort_length, HlH2; exact Hj).
+      rewrite (map_nth (fun hm => m + hm)).
+      pose proof (ascl_nth_bound (c_n w2) (sort_nat (dkeys (c_in w2))) (sort_ascl _) (sort_nodup _ Hn2)) as Hb.
+      rewrite sort_length, HlH2 in Hb. specialize (Hb ltac:(apply Forall_forall; intros y Hy; apply (proj1 (sort_in _ _)) in Hy; exact (lt_all_in _ _ _ Hk2 Hy)) j Hj).
+      lia. }
+    destruct (aem_list_compile e hs (c_spec c) (c_n c) (c_n c + lP) UP Hhs Hsc EP) as (UP' & EP' & RP).
+    rewrite <- Hp2, Hlh in EP'. rewrite Hlh in RP.
+    destruct (aem_list_compile e ts sp0 (c_n w) (c_n sub + lS) U0 Hts4' Hs0 E0) as (Uw & Ew & Rw).
+    rewrite <- Hts2, <- Hts1 in Ew.
+    assert (Hsps : Forall swnd sp) by (rewrite Hts2; apply swnd_fold_aem, Hs0).
+    destruct (shift_compile0 e m (c_n w2) (c_n c + lP + h0) sp (c_n sub + lS + length ts) Uw Hsp Hsps ltac:(lia) Ew) as (M & EM & RM).
+    replace (c_n sub + lS + length ts - c_n w2) with lS in EM, RM by lia.
+    destruct (cadd_list_onto e (shift_spec m sp) (c_n c + lP + h0) UP' _ M EM) as (UR & EUR & HUR).
+    set (D := c_n c + length (c_in sub) + lP + lS).
+    assert (HD : c_n c + lP + h0 + lS = D) by (unfold D; lia).
+    rewrite HD in *.
+    (* index maps *)
+    set (H2 := dkeys (c_in w2)) in *.
+    set (old := oldf m H2).
+    set (phi_in := fun y => fsh (c_n w2) m (c_n c + lP + h0) (mins ts y)).
+    set (phi_out := fun y => phi_in (swap_fun swaps y)).
+    set (loc := fun k => mins ts (nth k (dkeys (c_in sub)) 0) + m).
+    destruct (oldf_spec m H2 Hn2) as (Omono & Olow & Orank & Osurj & Ole & Otop). fold old in Omono, Olow, Orank, Osurj, Ole, Otop.
+    assert (HbH2 : forall k, In k H2 -> k < c_n w2) by (intros k Hk; exact (lt_all_in _ _ _ Hk2 Hk)).
+    assert (Otop' : forall l, old (c_n c + l) = c_n c + h0 + l).
+    { intros l. rewrite (Otop (c_n w2) (c_n c + l) HbH2); lia. }
+    assert (Hphi_lo : forall y, mins ts y < c_n w2 -> phi_in y = mins ts y + m).
+    { intros y Hy. unfold phi_in, fsh. replace (mins ts y <? c_n w2) with true by (symmetry; apply Nat.ltb_lt; exact Hy). reflexivity. }
+    assert (Hins_lo : forall a, In a (dkeys (c_in w)) -> mins ts a < c_n w2).
+    { intros a Ha. apply HbH2. rewrite HH2. apply in_map, Ha. }
+    assert (Ftop : forall l, mins ts (c_n w + l) = c_n w2 + l) by (intros l; rewrite Hts1; apply mins_top; exact Hts4').
+    assert (Flo : forall y, y < c_n w -> mins ts y < c_n w2).
+    { intros y Hy. pose proof (Ftop 0) as F0. rewrite !Nat.add_0_r in F0. rewrite <- F0. apply mins_mono, Hy. }
+    assert (Hphi_hi : forall l, phi_in (c_n w + l) = c_n c + lP + h0 + l).
+    { intros l. unfold phi_in, fsh. rewrite Ftop.
+      replace (c_n w2 + l <? c_n w2) with false by (symmetry; apply Nat.ltb_ge; lia). lia. }
+    (* sigma is a bijection of the compiled sub-circuit's modes *)
+    destruct (perm_on_bij (c_n w) (c_n sub + lS) (swap_fun swaps) (wf_swaps_perm_on _ _ Hsw1) ltac:(lia)) as (sq & Hbij & _ & _).
+    pose proof Hbij as (Hsp1 & Hsq1 & Hsqp & Hspq).
+    (* composed embedding of the sub-circuit *)
+    assert (Hf1 : finj (mins ts) (c_n sub + lS) (c_n sub + lS + length ts)).
+    { apply fok_finj, fok_mins. intros j Hj. specialize (Hts4' j Hj). lia. }
+    assert (Hf2 : finj (fsh (c_n w2) m (c_n c + lP + h0)) (c_n sub + lS + length ts) D).
+    { pose proof (fok_plus _ _ _ lS (fok_fsh (c_n w2) m (c_n c + lP + h0) ltac:(lia))) as G.
+      replace (c_n w2 + lS) with (c_n sub + lS + length ts) in G by lia. rewrite HD in G. apply fok_finj, G. }
+    pose proof (finj_comp _ _ _ _ _ Hf1 Hf2) as [Hf3 Hf4].
+    assert (RE : embr (fun i => fsh (c_n w2) m (c_n c + lP + h0) (mins ts i)) (c_n sub + lS) D U0 M).
+    { apply (embr_comp (mins ts) (fsh (c_n w2) m (c_n c + lP + h0)) (c_n sub + lS) (c_n sub + lS + length ts) D U0 Uw M);
+        assumption. }
+    destruct RE as [RE1 RE2].
+    destruct RP as [RP1 RP2].
+    assert (Hold_lo : forall i, i < c_n c + lP -> old i < c_n c + lP + h0).
+    { intros i Hi. pose proof (fok_mins hs (c_n c + lP) ltac:(intros j Hj; specialize (Hhs j Hj); lia)) as G.
+      rewrite Hlh in G. apply (fok_lo _ _ _ i G Hi). }
+    exists m, old, loc, phi_in, phi_out, UR, M, (pad co (c_n c + lP + h0) UP').
+    split; [reflexivity|].
+    split; [exact Hm|].
+    split; [exact (mode_ok_not_ancilla c mode m Hcnd Em)|].
+    split; [rewrite Hr1, Hh1, Hp1; fold H2; lia|].
+    split.
+    { unfold build. rewrite Hr5, Hh2, Hr1, Hh1, Hp1. fold H2. rewrite HlH2.
+      replace (c_n c + h0) with (c_n c + h0) by reflexivity. rewrite EP'.
+      replace (c_n c + lP + h0) with (c_n c + lP + h0) by reflexivity. rewrite EUR. f_equal. }
+    split; [exact Omono|].
+    split; [intros i Hi; rewrite <- Hh0; pose proof (Otop' 0) as G; rewrite !Nat.add_0_r in G; rewrite <- G; apply Omono, Hi|].
+    split; [intros l; rewrite <- Hh0; apply Otop'|].
+    split; [exact Olow|].
+    split.
+    { intros k Hk. unfold loc. rewrite <- Hh0 in Hk |- *. rewrite <- Hiw.
+      assert (Hin : In (nth k (dkeys (c_in w)) 0) (dkeys (c_in w))) by (apply nth_In; lia).
+      split; [specialize (Hins_lo _ Hin); lia|]. intros i. apply old_avoid; [exact Hn2|].
+      rewrite HH2. apply in_map, Hin. }
+    split.
+    { intros k k' Hk Hk' E. unfold loc in E. rewrite <- Hh0, <- Hlins in Hk, Hk'. rewrite <- Hiw in E.
+      apply (proj1 (NoDup_nth (dkeys (c_in w)) 0) Hwni k k' Hk Hk'). apply (WiringRank.mins_inj ts). lia. }
+    split.
+    { rewrite Hr2, Hh3, Hp3. fold H2. fold old. apply Permutation_app_head.
+      rewrite <- Hh0, <- Hlins.
+      replace (map loc (seq 0 (length (dkeys (c_in w))))) with (map (fun x => x + m) H2).
+      - apply Permutation_trans with (map (fun hm => m + hm) H2); [apply Permutation_map, sort_nat_perm|].
+        rewrite (map_ext (fun hm => m + hm) (fun x => x + m)) by (intros; lia). apply Permutation_refl.
+      - rewrite HH2, map_map. unfold loc. rewrite <- Hiw.
+        rewrite <- (map_nth_seq (dkeys (c_in w))) at 1. rewrite map_map. reflexivity. }
+    assert (Hnew : map (fun kv : nat * nat => (fst kv + m, snd kv)) (c_in w2)
+                   = map (fun kv => (phi_in (fst kv), snd kv)) (c_in sub)).
+    { rewrite Hts3, map_map, Hiw. apply map_ext_in. intros [a b] Hab. simpl. f_equal. symmetry. apply Hphi_lo, Hins_lo.
+      rewrite Hiw. unfold dkeys. apply in_map_iff. exists (a, b). auto. }
+    split; [rewrite Hr3, Hh4, Hp4, Hnew; reflexivity|].
+    split; [rewrite Hr4, Hh5, Hp5, Hnew; reflexivity|].
+    split.
+    { intros k Hk. rewrite <- Hh0 in Hk. rewrite <- Hiw, <- How.
+      assert (Hin : In (nth k (dkeys (c_in w)) 0) (dkeys (c_in w))) by (apply nth_In; lia).
+      split; [unfold loc; rewrite <- Hiw; apply Hphi_lo, Hins_lo, Hin|].
+      unfold phi_out. rewrite Hsw2 by lia. unfold loc. rewrite <- Hiw. apply Hphi_lo, Hins_lo, Hin. }
+    destruct (wiring_enum m (c_n c) (c_n w) (c_int c) (dkeys (c_in w)) ts) as [WE1 WE2];
+      try assumption.
+    { intros k Hk. exact (lt_all_in _ _ _ Hwi Hk). }
+    { rewrite Hlins. lia. }
+    { rewrite <- HH2, <- Hts1. exact HtsA. }
+    { rewrite <- HH2, <- Hts1, Hlins. exact HtsB. }
+    rewrite Hlins in WE1, WE2. rewrite <- HH2 in WE2. fold old in WE2.
+    rewrite <- Hnw, <- Hiw, <- How. fold h0.
+    split; [exact WE1|].
+    split.
+    { intros j Hj.
+      assert (HA : In (nth j (open_modes_of (c_n w) (dkeys (c_in w))) 0) (open_modes_of (c_n w) (dkeys (c_in w)))).
+      { apply nth_In. rewrite open_modes_length; [lia|exact Hwni|intros x Hx; exact (lt_all_in _ _ _ Hwi Hx)]. }
+      apply open_modes_in in HA as [HA1 HA2].
+      assert (G : phi_in (nth j (open_modes_of (c_n w) (dkeys (c_in w))) 0) = old (nth j (visible_from (c_n c) (c_int c) m) 0)).
+      { rewrite Hphi_lo by (apply Flo, HA1). apply WE2, Hj. }
+      split; [exact G|]. unfold phi_out.
+      rewrite (sigma_enum (c_n w) (dkeys (c_out w)) (dkeys (c_in w)) swaps); try assumption.
+      - intros x Hx. exact (lt_all_in _ _ _ Hwo Hx).
+      - intros x Hx. exact (lt_all_in _ _ _ Hwi Hx).
+      - rewrite Hlen', Hlins. exact Hj. }
+    split.
+    { intros l. rewrite Hphi_hi. split; [lia|]. unfold phi_out. rewrite Hsw5 by lia. rewrite Hphi_hi. lia. }
+    split.
+    { intros i Hi. rewrite Hnw in Hi. split; [exact (Hf3 i Hi)|]. unfold phi_out. apply (Hf3 (swap_fun swaps i)), Hsp1, Hi. }
+    split.
+    { intros i j Hi Hj. rewrite Hnw in Hi, Hj. split; intros E'.
+      - exact (Hf4 i j Hi Hj E').
+      - unfold phi_out in E'. apply Hf4 in E'; [|apply Hsp1; assumption|apply Hsp1; assumption].
+        rewrite <- (Hsqp i Hi), <- (Hsqp j Hj), E'. reflexivity. }
+    split.
+    { intros i j Hi Hj. unfold phi_out, phi_in. rewrite RE1 by (try apply Hsp1; lia). apply HU0; lia. }
+    split.
+    { intros x y Hx Hy Hno. apply RE2; try (fold D; assumption). intros i Hi. apply Hno. lia. }
+    split.
+    { intros x. split; intros Hno i Hi E'.
+      - apply (Hno (swap_fun swaps i)); [rewrite Hnw; apply Hsp1; lia|exact E'].
+      - apply (Hno (sq i)); [rewrite Hnw; apply Hsq1; lia|]. unfold phi_out. rewrite Hspq by lia. exact E'. }
+    split.
+    { intros i Hi i' Hi' E'.
+      assert (HiP : i < c_n c) by exact (lt_all_in _ _ _ Hcint Hi).
+      destruct (lt_dec i' (c_n w)) as [Hl|Hl].
+      - destruct (in_dec Nat.eq_dec i' (dkeys (c_in w))) as [Hk|Hk].
+        + rewrite Hphi_lo in E' by (apply Hins_lo, Hk).
+          apply (old_avoid m H2 i (mins ts i') Hn2); [rewrite HH2; apply in_map, Hk|]. fold old. lia.
+        + assert (HA : In i' (open_modes_of (c_n w) (dkeys (c_in w)))) by (apply open_modes_in; split; assumption).
+          apply (In_nth _ _ 0) in HA as (j & Hj & Ej).
+          rewrite open_modes_length in Hj by (try exact Hwni; intros x Hx; exact (lt_all_in _ _ _ Hwi Hx)).
+          rewrite Hlins in Hj.
+          rewrite Hphi_lo in E' by (apply Flo, Hl). rewrite <- Ej in E'. rewrite (WE2 j Hj) in E'.
+          assert (Hv : In (nth j (visible_from (c_n c) (c_int c) m) 0) (visible_from (c_n c) (c_int c) m)) by (apply nth_In; lia).
+          apply visible_from_in in Hv as (_ & _ & Hv3). apply Hv3.
+          replace (nth j (visible_from (c_n c) (c_int c) m) 0) with i; [exact Hi|].
+          destruct (lt_eq_lt_dec i (nth j (visible_from (c_n c) (c_int c) m) 0)) as [[Hlt|Heq]|Hgt]; [|exact Heq|].
+          * specialize (Omono _ _ Hlt). lia.
+          * specialize (Omono _ _ Hgt). lia.
+      - replace i' with (c_n w + (i' - c_n w)) in E' by lia. rewrite Hphi_hi in E'.
+        pose proof (Otop' 0) as G. rewrite Nat.add_0_r in G. specialize (Omono _ _ HiP). lia. }
+    split.
+    { intros i j Hi Hj. unfold pad.
+      replace (old i <? c_n c + lP + h0) with true by (symmetry; apply Nat.ltb_lt, Hold_lo, Hi).
+      replace (old j <? c_n c + lP + h0) with true by (symmetry; apply Nat.ltb_lt, Hold_lo, Hj).
+      simpl. apply RP1; assumption. }
+    split.
+    { intros x y Hx Hy Hno. unfold pad.
+      destruct (Nat.ltb_spec x (c_n c + lP + h0)) as [Hx'|Hx'], (Nat.ltb_spec y (c_n c + lP + h0)) as [Hy'|Hy'];
+        simpl; try (split; reflexivity).
+      apply RP2; assumption. }
+    split; [exact HUR|].
+    split; [exact HWc'|].
+    apply Hr6.
+    - rewrite Hh2, Hp2. apply swnd_fold_aem, Hsc.
+    - apply swnd_shift_spec, Hsps.
+  Qed.
+
+  (* ---------- helpers to discharge the hypotheses on concrete circuits ---------- *)
+  Lemma build_ok e (c : circ) : vals_ok (o:=o) e (Group (c_spec c) 0 0 [] []) ->
+    exists U, build o e c = Ok (c_n c + n_loss_list (c_spec c), U).
+  Proof.
+    intros H. destruct (cadd_ok e (Group (c_spec c) 0 0 [] []) (c_n c) (mid co) H) as (n' & U' & E).
+    rewrite cadd_group in E. pose proof (cadd_list_dim e _ _ _ _ _ E) as Hd. subst n'.
+    exists U'. unfold build. rewrite E. reflexivity.
+  Qed.
+
+  Fixpoint swndb (c : comp) : bool :=
+    match c with
+    | Swaps sw => nodupb (dkeys sw)
+    | Group sp _ _ _ _ => forallb swndb sp
+    | _ => true
+    end.
+  Lemma swndb_sound (c : comp) : swndb c = true -> swnd c.
+  Proof.
+    induction c as [m1 m2 v cv|m v|m v|ms|sw|m k V|sp m1 m2 hin hout IH] using comp_ind'; intros H;
+      try exact Logic.I.
+    - simpl in *. apply nodupb_nodup, H.
+    - apply swnd_group. cbn [swndb] in H. rewrite forallb_forall in H.
+      rewrite Forall_forall in *. intros x Hx. apply IH; auto.
+  Qed.
+  Lemma swndb_spec_sound (sp : list comp) : forallb swndb sp = true -> Forall swnd sp.
+  Proof. rewrite forallb_forall, Forall_forall. intros H x Hx. apply swndb_sound, H, Hx. Qed.
+
+  (* ---------- Layers 1 and 2 in closed form (from the identity) ---------- *)
+  Theorem aem_compile e mode (sp : list comp) n nl U :
+    Forall swnd sp -> mode <= n ->
+    cadd_list e sp (Ok (n, mid co)) = Ok (nl, U) ->
+    exists U', cadd_list e (aem_spec o mode sp) (Ok (S n, mid co)) = Ok (S nl, U') /\
+               (forall i j, i < nl -> j < nl -> U' (bump mode i) (bump mode j) = U i j) /\
+               (forall x, x < S nl -> U' mode x = mid co mode x /\ U' x mode = mid co x mode).
+  Proof.
+    intros Hs Hle H. pose proof (cadd_list_dim e sp _ _ _ _ H) as Hd.
+    destruct (aem_compile_gen e mode sp n nl (mid co) (mid co) U Hs Hle) as (U' & E & [R1 R2]); [|exact H|].
+    { apply embr_mid, fok_finj, fok_bump, Hle. }
+    exists U'. split; [exact E|]. split; [exact R1|].
+    intros x Hx. apply R2; [lia|exact Hx|]. intros i _. apply bump_ne.
+  Qed.
+
+  Theorem shift_compile e d n N l (sp : list comp) U :
+    Forall (cwf n) sp -> Forall swnd sp -> d + n <= N ->
+    cadd_list e sp (Ok (n, mid co)) = Ok (n + l, U) ->
+    let f := fun i => if i <? n then i + d else i - n + N in
+    exists M, cadd_list e (shift_spec d sp) (Ok (N, mid co)) = Ok (N + l, M) /\
+              (forall i j, i < n + l -> j < n + l -> M (f i) (f j) = U i j) /\
+              (forall x y, x < N + l -> y < N + l -> (forall i, i < n + l -> f i <> x) ->
+                           M x y = mid co x y /\ M y x = mid co y x).
+  Proof.
+    intros Hc Hs Hle H f.
+    destruct (shift_compile0 e d n N sp (n + l) U Hc Hs Hle H) as (M & E & [R1 R2]).
+    replace (n + l - n) with l in * by lia.
+    exists M. split; [exact E|]. split; [exact R1|exact R2].
   Qed.
 End WiringP.
